@@ -68,7 +68,7 @@ def obligations():
         C02: ['O2.6-body-semantic', 'O2.5-add-block', 'O2.3-blocks-proof-semantic'],
         C06: ['O6.1-filters', 'O6.1-filters-t', 'O6.2-latest-hashes', 'O6.2-latest-hashes-t', 'O6.5-script-selection'],
         C07: ['O7.1-quorum', 'O7.1-quorum-3v', 'O7.1-quorum-t', 'O7.3-add-check-points', 'O7.2-required'],
-        C12: ['O12.4-child-path', 'O12.1-commit'],
+        C12: ['O12.4-child-path', 'O12.1-commit', 'O12.5-remembered-headers'],
         C14: ['O14.3-vtd-no-panic-q', 'O14.3-vtd-no-panic', 'O14.3-vtau-no-panic', 'O14.3-no-panic-wide', 'O14.2-split'],
     }
     for mod, ids in pick.items():
